@@ -34,6 +34,7 @@ type c13Tx struct {
 	Nonce   uint64 `json:"nonce"`
 	Amount  uint64 `json:"amount"`
 	Variant int    `json:"variant"`
+	Pad     int    `json:"pad"` // extra payload bytes (transactions of different sizes)
 }
 
 type c13Op struct {
@@ -193,8 +194,8 @@ func newC13Env(t *testing.T, c *c13Case, dir string) *c13Env {
 	for i, x := range c.Txs {
 		tx := &types.Tx{Body: &types.TxBody{Nonce: x.Nonce, Account: e.body[x.Acc], Recipient: e.addrs[(x.Acc+1)%c.NAccs],
 			Amount: new(big.Int).SetUint64(x.Amount).Bytes(), Type: types.TxType_TRANSFER}}
-		if x.Variant > 0 {
-			tx.Body.Payload = []byte{byte(x.Variant)}
+		if x.Variant > 0 || x.Pad > 0 {
+			tx.Body.Payload = append([]byte{byte(x.Variant)}, make([]byte, x.Pad)...)
 		}
 		tx.Hash = tx.CalculateTxHash()
 		if _, dup := e.byHash[types.ToTxID(tx.Hash)]; dup {
